@@ -251,14 +251,19 @@ def count_nodes(tree):
 
 
 # ------------------------------------------------------------------------------------------ RUN
-def xalan_exe(bdir):
-    """the command-line program of the SAME build (current working tree of $VERIF_REPO), built under build_repo's lock"""
+def snapshot_binaries(bdir, harness, wd):
+    """Builds the command-line program of the SAME build (current working tree of $VERIF_REPO) and copies it, the harness and the
+    libraries they load into the work directory - all under build_repo's lock, so that a concurrent rebuild of the shared build
+    directory cannot pull a library away from under a running form.  Returns (harness, Xalan, LD_LIBRARY_PATH)."""
     lock = os.path.join(os.path.dirname(bdir), ".lock-" + os.path.basename(bdir))
-    r = vlib.sh(["flock", lock, "ninja", "-C", bdir, "Xalan"], capture_output=True, text=True)
-    exe = os.path.join(bdir, "src", "xalanc", "Xalan")
-    if r.returncode != 0 or not os.path.exists(exe):
-        raise vlib.Infra("cannot build the Xalan executable in %s:\n%s" % (bdir, (r.stdout + r.stderr)[-3000:]))
-    return exe
+    snap = os.path.join(wd, "bin"); os.makedirs(snap)
+    libs = [os.path.join(bdir, "src", "xalanc", "libxalan-c.so*"), os.path.join(bdir, "src", "xalanc", "Utils", "XalanMsgLib", "libxalanMsg.so*")]
+    script = "ninja -C '%s' Xalan && cp -a '%s' '%s' %s '%s/'" % (bdir, os.path.join(bdir, "src", "xalanc", "Xalan"), harness, " ".join(libs), snap)
+    r = vlib.sh(["flock", lock, "sh", "-c", script], capture_output=True, text=True)
+    exe, xalan = os.path.join(snap, os.path.basename(harness)), os.path.join(snap, "Xalan")
+    if r.returncode != 0 or not os.path.exists(xalan) or not os.path.exists(exe):
+        raise vlib.Infra("cannot build / snapshot the Xalan executable in %s:\n%s" % (bdir, (r.stdout + r.stderr)[-3000:]))
+    return exe, xalan, snap
 
 
 def read_trace(path):
@@ -311,7 +316,7 @@ def write_input(wd, inp):
     return d
 
 
-def prescreen(res, wd, xalan, inputs):
+def prescreen(res, wd, xalan, libdir, inputs):
     """C05 compares forms; an input on which the plain command-line run (file, stylesheet file, stdout) does not even terminate
     says nothing about forms and would only block the in-process forms: such inputs are set aside and listed in the evidence.
     (Seen on the unchanged tree: an unbalanced XalanNamespacesStack::popContext after an ignored xsl:copy makes
@@ -321,7 +326,8 @@ def prescreen(res, wd, xalan, inputs):
     def one(inp):
         d = os.path.join(wd, "in%d" % inp["idx"])
         try:
-            subprocess.run([xalan, os.path.join(d, "in.xml"), os.path.join(d, "main.xsl")], stdout=subprocess.DEVNULL, stderr=subprocess.DEVNULL, timeout=30)
+            subprocess.run([xalan, os.path.join(d, "in.xml"), os.path.join(d, "main.xsl")], stdout=subprocess.DEVNULL, stderr=subprocess.DEVNULL, timeout=30,
+                           env=dict(os.environ, LD_LIBRARY_PATH=libdir))
             return True
         except subprocess.TimeoutExpired:
             return False
@@ -333,7 +339,7 @@ def prescreen(res, wd, xalan, inputs):
     return [inp for inp, ok in zip(inputs, oks) if ok]
 
 
-def run_harness(res, wd, exe, xalan, inputs, forms):
+def run_harness(res, wd, exe, xalan, libdir, inputs, forms):
     cases = []
     for inp in inputs:
         d = os.path.join(wd, "in%d" % inp["idx"])
@@ -349,7 +355,7 @@ def run_harness(res, wd, exe, xalan, inputs, forms):
         ch = cases[s::nsh]
         cp = os.path.join(wd, "cases-%d.ndjson" % s); vlib.write_ndjson(cp, ch)
         tp = os.path.join(wd, "trace-%d.ndjson" % s)
-        procs.append((ch, tp, subprocess.Popen([exe, cp, xalan], stdout=open(tp, "w"), stderr=subprocess.PIPE, env=dict(os.environ, ASAN_OPTIONS="detect_leaks=0"))))
+        procs.append((ch, tp, subprocess.Popen([exe, cp, xalan], stdout=open(tp, "w"), stderr=subprocess.PIPE, env=dict(os.environ, ASAN_OPTIONS="detect_leaks=0", LD_LIBRARY_PATH=libdir))))
     raw = {}
     for ch, tp, p in procs:
         try:
@@ -359,6 +365,8 @@ def run_harness(res, wd, exe, xalan, inputs, forms):
         evs = [e for e in read_trace(tp) if e.get("e") == "Run"]
         for e in evs:
             raw.setdefault(e["id"], []).append(e)
+        if p.returncode == 2:                       # the harness's own exit code: bad case file, Xalan executable cannot be started
+            raise vlib.Infra("harness: %s" % (err or b"").decode("utf8", "replace")[-500:])
         if p.returncode != 0:
             # the process died inside some form: name the form (the first planned run without an event)
             for c in ch:
@@ -414,12 +422,12 @@ def run(res, tier, seed):
     for i, inp in enumerate(inputs):
         inp["idx"] = i
     # ---- RUN
-    exe = vlib.build_harness("c05")
-    xalan = xalan_exe(os.path.dirname(exe))
+    built = vlib.build_harness("c05")
+    exe, xalan, libdir = snapshot_binaries(os.path.dirname(built), built, wd)
     for inp in inputs:
         write_input(wd, inp)
-    inputs = prescreen(res, wd, xalan, inputs)
-    cases, raw = run_harness(res, wd, exe, xalan, inputs, forms)
+    inputs = prescreen(res, wd, xalan, libdir, inputs)
+    cases, raw = run_harness(res, wd, exe, xalan, libdir, inputs, forms)
     events, execs = [], []
     for inp, c in zip(inputs, cases):
         runs = raw.get(inp["idx"], [])
